@@ -12,7 +12,7 @@ case "$DEMO" in test_*) run_demo() { ( cd $S && PYTHONPATH=$S/src PYTHONHASHSEED
 A=$(run_demo)
 git -C $S apply "$SRC/$PATCH" 2>/dev/null || { git -C $S reset -q --hard; git -C $S apply --3way "$SRC/$PATCH" >/dev/null 2>&1 && [ -z "$(git -C $S diff --name-only --diff-filter=U)" ] && git -C $S reset -q && git -C $S diff > /tmp/seedrun/rebased.diff && PATCH_REBASED=1 || { echo "$NAME: patch does not apply to HEAD (conflict)"; git -C $S reset -q --hard; exit 2; }; }
 B=$(run_demo)
-SUITE=$(cd /verif && VERIF_REPO_ROOT=$S /venv/bin/python harness/baseline_check.py -n 8 | head -1)
+SUITE=$(cd /verif && VERIF_REPO_ROOT=$S /venv/bin/python harness/baseline_check.py -n 14 | head -1)
 git -C $S reset -q --hard; git -C $S clean -fdq
 echo "$NAME: demo clean exit=$A, demo patched exit=$B, suite: $SUITE"
 if [ "$A" = 0 ] && [ "$B" != 0 ] && echo "$SUITE" | grep -q "missing=0"; then
